@@ -249,6 +249,14 @@ ROUND10 = {
  "C19": "accepted-by-Set implies answered-by-Get for every transport endpoint pair (found D16); ipc owner/permission options applied after every successful bind (forward walk, error-nil side, through helper returns)",
  "C20": "subscriptions precede Dial/Listen in Run (CFG precedence); E5 ownership run on macat (buffer-after-release)",
 }
+# engines and rule families added in the session of round 11 (DESIGN 8.5, round 11)
+ROUND11 = {
+ "C10": "E12 nil-safety (from C12)",
+ "C11": "E12 nil-safety (from C12)",
+ "C12": "E12 NILSAFE: forward must-non-nil dataflow per function over the fields the module itself treats as optional (nil tests / nil stores) and over maps not made at every creation, with entry facts from all call sites and closure creations (greatest fixpoint), kill on calls that may clear, error-checked results, companion fields and correlated merges",
+ "C16": "E12 nil-safety on every peer-driven function",
+ "C20": "E12 nil-safety on macat (the socket exists only behind the test in Run)",
+}
 for k, (t, x) in EXTRA.items():
     tech, text, note, ref = CLAIMED[k]
     imp = IMPORTS.get(k)
@@ -258,6 +266,8 @@ for k, (t, x) in EXTRA.items():
         r8 = (r8 + "; " if r8 else "") + "after round 9: " + ROUND9[k]
     if ROUND10.get(k):
         r8 = (r8 + "; " if r8 else "") + "after round 10: " + ROUND10[k]
+    if ROUND11.get(k):
+        r8 = (r8 + "; " if r8 else "") + "after round 11: " + ROUND11[k]
     CLAIMED[k] = (tech + t + ("; shared mechanisms decided where they are anchored and imported: " + imp if imp else "") + ("; added after seeded rounds 6-7: " + r67 if r67 else "") + ("; added after seeded round 8: " + r8 if r8 else ""), text + x, note, ref)
 
 NOT_YET = "check not built yet (work in progress; planned static rules in DESIGN.md section 4)"
